@@ -2,6 +2,7 @@ package main
 
 import (
 	"fmt"
+	"os"
 	"math"
 	"math/big"
 	"strings"
@@ -71,6 +72,9 @@ func kindClass(kind string) string {
 
 // fail records a violation (deduplicated per signature and worker, see cklib.FailOnce).
 func (m *machine) fail(sig, format string, args ...interface{}) {
+	if debugLeaves {
+		fmt.Fprintf(os.Stderr, "FAIL %s: "+format+"\n", append([]interface{}{sig}, args...)...)
+	}
 	cklib.FailOnce(m.c, m.name+" "+strings.Join(m.path, " "), sig, format, args...)
 }
 
